@@ -444,12 +444,216 @@ fn run_pop(case: &Value) -> Value {
     json!({"trace": trace})
 }
 
+
+// ------------------------------------------------------------------------------------------------
+// kind "ctx": real vrp-core InsertionContexts (0, 1, several routes, routes without jobs) -> RosomaxaSolution::on_init
+// -> Input::weights(); the weight vectors are then fed to the real Network, to the real RosomaxaPopulation and a real solve.
+mod ctx {
+    use super::*;
+    use vrp_core::construction::heuristics::InsertionContext;
+    use vrp_core::models::common::Footprint;
+    use vrp_core::prelude::*;
+    use vrp_core::rosomaxa::evolution::TelemetryMode;
+    use vrp_core::solver::search::{Recreate, RecreateWithCheapest};
+    use vrp_core::solver::{RefinementContext, RosomaxaPopulation};
+
+    fn problem_of(case: &Value) -> Arc<Problem> {
+        let demands = i64s_of(&case["demands"]);
+        let n = demands.len() + 1;
+        // locations on a line: 0 = depot, job i at i; distance = duration = |i - j| * 10
+        let m: Vec<f64> = (0..n * n).map(|k| ((k / n) as f64 - (k % n) as f64).abs() * 10.).collect();
+        let transport: Arc<dyn TransportCost> = Arc::new(SimpleTransportCost::new(m.clone(), m).unwrap());
+        let minimize_unassigned = MinimizeUnassignedBuilder::new("min-unassigned").build().unwrap();
+        let capacity_feature = CapacityFeatureBuilder::<SingleDimLoad>::new("capacity").build().unwrap();
+        let transport_feature = TransportFeatureBuilder::new("min-distance")
+            .set_transport_cost(transport.clone())
+            .set_time_constrained(false)
+            .build_minimize_distance()
+            .unwrap();
+        let goal = GoalContextBuilder::with_features(&[minimize_unassigned, transport_feature, capacity_feature]).unwrap().build().unwrap();
+        let jobs: Vec<Job> = demands
+            .iter()
+            .enumerate()
+            .map(|(i, &d)| {
+                SingleBuilder::default()
+                    .id(format!("job{}", i + 1).as_str())
+                    .demand(Demand::delivery(d as i32))
+                    .location(i + 1)
+                    .unwrap()
+                    .build_as_job()
+                    .unwrap()
+            })
+            .collect();
+        let vehicles: Vec<Vehicle> = (0..usize_of(&case["vehicles"]))
+            .map(|i| {
+                VehicleBuilder::default()
+                    .id(format!("v{}", i + 1).as_str())
+                    .add_detail(VehicleDetailBuilder::default().set_start_location(0).set_end_location(0).build().unwrap())
+                    .capacity(SingleDimLoad::new(i64_of(&case["capacity"]) as i32))
+                    .build()
+                    .unwrap()
+            })
+            .collect();
+        Arc::new(
+            ProblemBuilder::default()
+                .add_jobs(jobs.into_iter())
+                .add_vehicles(vehicles.into_iter())
+                .with_goal(goal)
+                .with_transport_cost(transport)
+                .build()
+                .unwrap(),
+        )
+    }
+
+    fn env_of(seed: u64, cpus: usize) -> Arc<Environment> {
+        let random: Arc<dyn Random> = Arc::new(DetRandom { stream: Mutex::new(SplitMix(seed)) });
+        Arc::new(Environment::new(random, None, Parallelism::new_with_cpus(cpus), Arc::new(|_: &str| {}), false))
+    }
+
+    fn make_ctx(problem: &Arc<Problem>, how: &str, seed: u64) -> InsertionContext {
+        let env = env_of(seed, 1);
+        let construct = |ctx: InsertionContext| {
+            let population = Box::new(vrp_core::solver::GreedyPopulation::new(problem.goal.clone(), 1, None));
+            let rctx = RefinementContext::new(problem.clone(), population, TelemetryMode::None, env.clone());
+            RecreateWithCheapest::new(env.random.clone()).run(&rctx, ctx)
+        };
+        match how {
+            "empty" => InsertionContext::new_empty(problem.clone(), env.clone()),
+            "new" => InsertionContext::new(problem.clone(), env.clone()),
+            "cheapest" => construct(InsertionContext::new(problem.clone(), env.clone())),
+            "cheapest-plus-empty-route" | "only-empty-route" => {
+                let mut ctx = if how == "only-empty-route" {
+                    InsertionContext::new(problem.clone(), env.clone())
+                } else {
+                    construct(InsertionContext::new(problem.clone(), env.clone()))
+                };
+                let actor = ctx.solution.registry.next_route().next().map(|r| r.route().actor.clone());
+                if let Some(actor) = actor {
+                    if let Some(route) = ctx.solution.registry.get_route(&actor) {
+                        ctx.solution.routes.push(route);
+                    }
+                }
+                problem.goal.accept_solution_state(&mut ctx.solution);
+                ctx
+            }
+            _ => panic!("unknown make"),
+        }
+    }
+
+    fn state_summary(state: &NetworkState) -> Value {
+        let nan_w: usize = state.nodes.iter().map(|n| n.weights.iter().filter(|w| !w.is_finite()).count()).sum();
+        let nan_m = state.nodes.iter().filter(|n| !n.mse.is_finite() || !n.unified_distance.is_finite()).count();
+        json!({"nodes": state.nodes.len(), "nonfinite_w": nan_w, "nonfinite_node_measures": nan_m, "mse_fin": state.mse.is_finite(),
+               "dim": state.shape.2})
+    }
+
+    pub fn run_ctx(case: &Value) -> Value {
+        let seed = case["seed"].as_u64().unwrap_or(1);
+        let problem = problem_of(case);
+        let footprint = Footprint::new(problem.as_ref());
+        let makes: Vec<String> = case["make"].as_array().unwrap().iter().map(|v| v.as_str().unwrap().to_string()).collect();
+        let mut ctxs: Vec<InsertionContext> = vec![];
+        let mut out_ctxs: Vec<Value> = vec![];
+        for (k, how) in makes.iter().enumerate() {
+            let mut ctx = make_ctx(&problem, how, seed + k as u64);
+            RosomaxaSolution::on_init(&mut ctx, &footprint);
+            let w: Vec<Float> = Input::weights(&ctx).to_vec();
+            let jobs_in_routes: usize = ctx.solution.routes.iter().map(|r| r.route().tour.job_count()).sum();
+            out_ctxs.push(json!({"make": how, "routes": ctx.solution.routes.len(), "unassigned": ctx.solution.unassigned.len(),
+                                 "jobs_in_routes": jobs_in_routes, "dim": w.len(),
+                                 "weights": w.iter().map(|&x| bits_of(x)).collect::<Vec<_>>(),
+                                 "nonfinite": w.iter().enumerate().filter(|(_, x)| !x.is_finite()).map(|(i, _)| i).collect::<Vec<_>>()}));
+            ctxs.push(ctx);
+        }
+
+        // (2a) the real Network (instrumented storage) fed with the real weight vectors
+        let net = std::panic::catch_unwind(std::panic::AssertUnwindSafe(|| {
+            let random: Arc<dyn Random> = Arc::new(DetRandom { stream: Mutex::new(SplitMix(seed)) });
+            let log: Log = Arc::new(Mutex::new(vec![]));
+            let counter = Arc::new(AtomicUsize::new(0));
+            let sols = |base: i64| -> Vec<Sol> {
+                ctxs.iter()
+                    .enumerate()
+                    .map(|(i, c)| Sol { id: base + i as i64, key: i as i64, tag: base + i as i64, weights: Input::weights(c).to_vec() })
+                    .collect()
+            };
+            let config = NetworkConfig { node_size: 2, spread_factor: 0.75, distribution_factor: 0.9, learning_rate: 0.3,
+                                         rebalance_memory: 10, has_initial_error: true };
+            let ctx0 = Ctx;
+            let (r2, l2, c2) = (random.clone(), log.clone(), counter.clone());
+            let made = Net::new(&ctx0, sols(0), config, random.clone(), move |node_size| LogFactory {
+                node_size, random: r2.clone(), log: l2.clone(), counter: c2.clone() });
+            let mut net = match made {
+                Ok(n) => n,
+                Err(e) => return json!({"created": 1, "err": e.to_string()}),
+            };
+            let mut trace = vec![dump(&net)];
+            for (k, op) in ["store", "smooth", "compact", "store", "smooth"].iter().enumerate() {
+                match *op {
+                    "store" => net.store_batch(&ctx0, sols(1000 * (k as i64 + 1)), k + 1),
+                    "smooth" => net.smooth(&ctx0, 1, |_: &mut Sol| ()),
+                    _ => net.compact(&ctx0),
+                }
+                trace.push(dump(&net));
+            }
+            let t: Vec<Value> = trace.iter().map(|d| json!({"size": d["size"], "nonfinite_w": d["nonfinite_w"], "nonfinite_e": d["nonfinite_e"],
+                                                           "nonfinite_m": d["nonfinite_m"], "find_bad": d["find_bad"]})).collect();
+            json!({"created": 0, "trace": t})
+        }))
+        .unwrap_or_else(|e| json!({"panic": panic_msg(&e)}));
+
+        // (2b) the real RosomaxaPopulation of vrp-core fed with the real contexts
+        let pop = std::panic::catch_unwind(std::panic::AssertUnwindSafe(|| {
+            let env = env_of(seed, 1);
+            let config = RosomaxaConfig { initial_size: 4, ..RosomaxaConfig::new_with_defaults(4) };
+            let mut pop: RosomaxaPopulation = Rosomaxa::new(footprint.clone(), problem.goal.clone(), env, config).expect("config");
+            let mut trace: Vec<Value> = vec![];
+            for g in 0..usize_of(&case["pop_gens"]) {
+                pop.add_all(ctxs.iter().map(|c| c.deep_copy()).collect());
+                let stats = HeuristicStatistics { generation: g, time: Timer::start(), speed: HeuristicSpeed::Unknown,
+                    improvement_all_ratio: 0.25, improvement_1000_ratio: 0.25, termination_estimate: 0.01 * (g as Float + 1.) };
+                pop.on_generation(&stats);
+                let net = NetworkState::try_from(&pop).ok().map(|s| state_summary(&s));
+                let selected = pop.select().count();
+                trace.push(json!({"phase": phase_of(pop.selection_phase()), "elite": pop.size(), "selected": selected, "net": net}));
+            }
+            json!({"trace": trace})
+        }))
+        .unwrap_or_else(|e| json!({"panic": panic_msg(&e)}));
+
+        // (2c) a real solve with the default configuration (Rosomaxa population when more than one cpu is configured)
+        let gens = usize_of(&case["solve_gens"]);
+        let solve = if gens == 0 {
+            Value::Null
+        } else {
+            std::panic::catch_unwind(std::panic::AssertUnwindSafe(|| {
+                let env = env_of(seed, 2);
+                let config = VrpConfigBuilder::new(problem.clone())
+                    .set_environment(env)
+                    .set_telemetry_mode(TelemetryMode::None)
+                    .prebuild()
+                    .unwrap()
+                    .with_max_generations(Some(gens))
+                    .build()
+                    .unwrap();
+                match Solver::new(problem.clone(), config).solve() {
+                    Ok(s) => json!({"routes": s.routes.len(), "unassigned": s.unassigned.len(), "cost_fin": s.cost.is_finite()}),
+                    Err(e) => json!({"err": e.to_string()}),
+                }
+            }))
+            .unwrap_or_else(|e| json!({"panic": panic_msg(&e)}))
+        };
+        json!({"ctxs": out_ctxs, "net": net, "pop": pop, "solve": solve})
+    }
+}
+
 pub fn run_case(case: &Value) -> Value {
     // a fresh thread per case: the crate's repeatable RNG (get_rng) is thread-local, so every case starts from the same state
     let c = case.clone();
     let h = std::thread::spawn(move || match c["kind"].as_str().unwrap() {
         "net" => run_net(&c),
         "pop" => run_pop(&c),
+        "ctx" => ctx::run_ctx(&c),
         _ => panic!("unknown kind"),
     });
     match h.join() {
